@@ -24,9 +24,71 @@ type c17Var struct {
 	Kind string `json:"kind"` // sys elem res coll coll-empty coll-nested dup predefined bad-int bad-string bad-struct bad-nil bad-in-coll bad-in-coll2
 }
 
-var c17VarKinds = []string{"sys", "sys", "elem", "res", "coll", "coll", "coll-empty", "coll-nested", "dup", "predefined", "bad-int", "bad-string", "bad-struct", "bad-nil", "bad-in-coll", "bad-in-coll2"}
+var c17VarKinds = []string{"shape", "shape", "shape", "shape", "sys", "sys", "elem", "res", "coll", "coll", "coll-empty", "coll-nested", "dup", "predefined", "bad-int", "bad-string", "bad-struct", "bad-nil", "bad-in-coll", "bad-in-coll2"}
+
+// c17GenShape draws the contents of a collection value: i s e r are supported items
+// (Integer, String, element, resource), B F G N unsupported ones (Go int, float64,
+// string, nil) at any position, [..] a nested collection.
+func c17GenShape(s Src, depth int) string {
+	var b strings.Builder
+	n := s.Range(1, 5)
+	for i := 0; i < n; i++ {
+		switch {
+		case s.Prob(20):
+			b.WriteString(pickOne(s, []string{"B", "F", "G", "N"}))
+		case depth < 2 && s.Prob(25):
+			b.WriteString("[" + c17GenShape(s, depth+1) + "]")
+		default:
+			b.WriteString(pickOne(s, []string{"i", "s", "e", "r"}))
+		}
+	}
+	return b.String()
+}
+
+func c17ShapeValue(shape string, pat fhir.Resource, name *dtpb.HumanName) system.Collection {
+	var parse func(i int) (system.Collection, int)
+	parse = func(i int) (system.Collection, int) {
+		out := system.Collection{}
+		for i < len(shape) {
+			switch shape[i] {
+			case 'i':
+				out = append(out, system.Integer(7))
+			case 's':
+				out = append(out, system.String("x"))
+			case 'e':
+				out = append(out, name)
+			case 'r':
+				out = append(out, pat)
+			case 'B':
+				out = append(out, 42)
+			case 'F':
+				out = append(out, 3.14)
+			case 'G':
+				out = append(out, "plain go string")
+			case 'N':
+				out = append(out, nil)
+			case '[':
+				sub, j := parse(i + 1)
+				out = append(out, sub)
+				i = j
+			case ']':
+				return out, i
+			}
+			i++
+		}
+		return out, i
+	}
+	c, _ := parse(0)
+	return c
+}
+
+func c17IsShape(k string) bool  { return strings.HasPrefix(k, "shape:") }
+func c17IsNested(k string) bool { return k == "coll-nested" || (c17IsShape(k) && strings.Contains(k, "[")) }
 
 func c17VarValue(k string, pat fhir.Resource, name *dtpb.HumanName) any {
+	if c17IsShape(k) {
+		return c17ShapeValue(strings.TrimPrefix(k, "shape:"), pat, name)
+	}
 	switch k {
 	case "sys", "dup", "predefined":
 		return system.Integer(42)
@@ -57,6 +119,9 @@ func c17VarValue(k string, pat fhir.Resource, name *dtpb.HumanName) any {
 }
 
 func c17VarInvalid(k string) (dupOrPredef, unsupported bool) {
+	if c17IsShape(k) {
+		return false, strings.ContainsAny(k, "BFGN")
+	}
 	switch k {
 	case "dup", "predefined":
 		return true, false
@@ -82,6 +147,8 @@ func c17GenEval(s Src) c17EvalCase {
 	for i := 0; i < n; i++ {
 		v := c17Var{Name: names[i], Kind: pickOne(s, c17VarKinds)}
 		switch v.Kind {
+		case "shape":
+			v.Kind = "shape:" + c17GenShape(s, 0)
 		case "dup":
 			if i == 0 {
 				v.Kind = "sys"
@@ -236,7 +303,7 @@ func c17RunEval(ctx *Ctx, c c17EvalCase) {
 		return
 	}
 	if err != nil {
-		if refVar != nil && refVar.Kind == "coll-nested" {
+		if refVar != nil && c17IsNested(refVar.Kind) {
 			ctx.Count("nested_collection_value(totality only)")
 			return
 		}
@@ -278,7 +345,7 @@ func c17RunEval(ctx *Ctx, c c17EvalCase) {
 		}
 		return true
 	}
-	if refVar != nil && refVar.Kind == "coll-nested" {
+	if refVar != nil && c17IsNested(refVar.Kind) {
 		ctx.Count("nested_collection_value(totality only)")
 		return
 	}
@@ -542,7 +609,7 @@ func pickOneFixed(i int, xs []string) string { return xs[i%len(xs)] }
 
 func TestC17(t *testing.T) {
 	r := newRec("C17",
-		"evaluate-option cases: lists of 0..4 EnvVariable options (+ optionally OverrideTime) over {System value, element, resource, collection, empty collection, nested collection, duplicate name, predefined name context/ucum, unsupported Go int/string/struct/nil, unsupported value nested one and two levels inside collections} in drawn order, with a program that references one of the variables at the root, inside select/where criteria, inside a custom-function argument, or %context/%ucum/%nope; instrumented custom functions count invocations and record input and arguments; an enumeration stage covers all orders of all lists of length ≤ 2 (quick) / ≤ 3 (thorough) over 12 option kinds.  compile-option cases: four well-typed functions plus 0..4 of {good 0/1/2-ary, proto-typed, wrong first parameter, wrong results, non-function, no parameters, variadic, built-in name, duplicate name} in rotated order × 15 call shapes (right/wrong argument types and counts, call sites at the root, in select, in where) × {returns collection, returns wrapped sentinel error, returns empty}.  non-trivial = ≥ 2 options with an invalid one among valid ones, or a variable referenced below the root, or a custom function call; distinct = FNV-64 of (options, program)",
+		"evaluate-option cases: lists of 0..4 EnvVariable options (+ optionally OverrideTime) over {System value, element, resource, collection, empty collection, nested collection, duplicate name, predefined name context/ucum, unsupported Go int/string/struct/nil, unsupported value nested one and two levels inside collections, generated collection shapes (1..5 items per level, ≤ 3 levels, supported and unsupported items at any position)} in drawn order, with a program that references one of the variables at the root, inside select/where criteria, inside a custom-function argument, or %context/%ucum/%nope; instrumented custom functions count invocations and record input and arguments; an enumeration stage covers all orders of all lists of length ≤ 2 (quick) / ≤ 3 (thorough) over 12 option kinds.  compile-option cases: four well-typed functions plus 0..4 of {good 0/1/2-ary, proto-typed, wrong first parameter, wrong results, non-function, no parameters, variadic, built-in name, duplicate name} in rotated order × 15 call shapes (right/wrong argument types and counts, call sites at the root, in select, in where) × {returns collection, returns wrapped sentinel error, returns empty}.  non-trivial = ≥ 2 options with an invalid one among valid ones, or a variable referenced below the root, or a custom function call; distinct = FNV-64 of (options, program)",
 		"nested collections as variable values and variadic functions are executed for totality only (the statement does not define them)")
 	runProperty(t, r,
 		Stage[c17EvalCase]{Name: "option-orders", Enum: c17EnumEval, Run: c17RunEval},
